@@ -293,6 +293,37 @@ void c14_case(Ctx& c, Rng& r) {
             if (len >= 16 && ct == payload) c.violation("C14:wire:plaintext-on-the-wire", J().kv("len", len).str());
             sig = hx::mix(sig, len);
         }
+        // the same from several threads of the node at once (tick loop, control handlers and session readers all send):
+        // frames stay whole, and nonces stay fresh across threads
+        {
+            const int nthreads = 2 + static_cast<int>(r.below(3));
+            const int per = 2 + static_cast<int>(r.below(4));
+            std::vector<std::vector<std::vector<std::uint8_t>>> payloads(nthreads);
+            for (int t = 0; t < nthreads; ++t) for (int i = 0; i < per; ++i) { auto pl = r.bytes(24 + r.below(400)); pl[0] = static_cast<std::uint8_t>(t); pl[1] = static_cast<std::uint8_t>(i); payloads[t].push_back(std::move(pl)); }
+            std::vector<std::thread> th;
+            std::atomic<int> refused{0};
+            for (int t = 0; t < nthreads; ++t) th.emplace_back([&, t] { for (auto& pl : payloads[t]) if (!A.node->send_secure(p.id, pl)) refused.fetch_add(1); });
+            for (auto& t : th) t.join();
+            if (refused.load()) c.violation("C14:send:payload-within-limit-refused", J().kv("mode", "threads-to-raw-peer").kv("refused", refused.load()).str());
+            std::vector<std::size_t> next(nthreads, 0);
+            for (int k = 0; k < nthreads * per - refused.load(); ++k) {
+                std::uint8_t hdr[16];
+                if (rd(p.fd, hdr, 16, 10000) != 1) { c.violation("C14:wire:frame-header-missing", J().kv("mode", "threads-to-raw-peer").str()); break; }
+                const std::uint32_t len = (std::uint32_t(hdr[12]) << 24) | (std::uint32_t(hdr[13]) << 16) | (std::uint32_t(hdr[14]) << 8) | hdr[15];
+                if (len > 4096) { c.violation("C14:wire:length-field-differs-from-payload", J().kv("mode", "threads-to-raw-peer").kv("len", len).str()); break; }
+                std::vector<std::uint8_t> ct(len);
+                if (len && rd(p.fd, ct.data(), len, 10000) != 1) { c.violation("C14:wire:frame-body-missing", J().kv("mode", "threads-to-raw-peer").str()); break; }
+                c.note("wire.frames-observed");
+                c.note("wire.frames-from-concurrent-threads");
+                std::array<std::uint8_t, 12> nonce;
+                std::copy(hdr, hdr + 12, nonce.begin());
+                if (!nonces.insert(nonce).second) c.violation("C14:wire:nonce-reused", J().kv("mode", "threads-to-raw-peer").kv("frame", k).kv("threads", nthreads).str());
+                const auto pt = ref::chacha20_rfc(p.key.data(), hdr, 0, ct);   // the cipher is its own inverse
+                const int t = pt.size() >= 2 ? pt[0] : -1;
+                if (t < 0 || t >= nthreads || next[t] >= payloads[t].size() || pt != payloads[t][next[t]]) { c.violation("C14:wire:ciphertext-is-not-chacha20-of-payload", J().kv("mode", "threads-to-raw-peer").kv("len", len).str()); break; }
+                ++next[t];
+            }
+        }
         // wire -> node: well-formed frames are delivered, an oversized announcement ends the session
         const auto before = A.count();
         const auto payload = r.bytes(r.chance(1, 4) ? MiB : r.below(3000));
